@@ -1124,11 +1124,11 @@ def savetxt(fname, X, fmt="%.18e", delimiter=" ", **kw):
     vfs.write_table(fname, rows, delimiter)
 
 
-def loadtxt(fname, delimiter=None, **kw):
+def loadtxt(fname, delimiter=None, ndmin=0, **kw):
     from . import vfs
     if kw:
         raise Unsupported("loadtxt options %r" % (sorted(kw),))
     rows = vfs.read_table(fname, delimiter)
-    if len(rows) == 1:
+    if len(rows) == 1 and ndmin < 2:
         return SArr.from_list(rows[0], dtype="f")
     return SArr.from_list(rows, dtype="f")
